@@ -20,6 +20,7 @@ type Env struct {
 	inOld   bool
 	oldVars map[string]Term // overrides while inside old()
 	cellHook func(comp, sort, ref string) string // current-state cell reads (may use the cell cache)
+	locVars  map[string]Loc // pointer-typed names that denote the address of a field/element
 }
 
 func (env *Env) readCell(comp, sort, ref string) string {
@@ -224,6 +225,17 @@ func (env *Env) elab(x SExpr) Term {
 			env.wantInt(a, x.X)
 			return mathInt("(- " + a.S + ")")
 		case "*":
+			if id, isId := x.X.(*SIdent); isId && env.locVars != nil {
+				if l, ok := env.locVars[id.Name]; ok {
+					// pointer to a field or element that lives inside another object
+					h := env.curHeap()(l.comp, l.sort)
+					s := fmt.Sprintf("(select %s %s)", h, l.ref)
+					if l.idx != "" {
+						s = fmt.Sprintf("(select (select %s %s) %s)", h, l.ref, l.idx)
+					}
+					return Term{S: s, Sort: vc.sortOf(l.T), T: l.T}
+				}
+			}
 			a := env.elab(x.X)
 			pt, ok := typeUnder[*types.Pointer](a.T)
 			if !ok {
@@ -231,6 +243,19 @@ func (env *Env) elab(x SExpr) Term {
 			}
 			el := pt.Elem()
 			return Term{S: vc.loadObject(a.S, el, env.curHeap()), Sort: vc.sortOf(el), T: el}
+		case "&":
+			// address of an element of an object-typed slice
+			if ix, ok := x.X.(*SIndex); ok {
+				b := env.elab(ix.X)
+				st, isSl := typeUnder[*types.Slice](b.T)
+				if b.Sort == "Slice" && isSl && isObjectType(st.Elem()) {
+					i := env.elab(ix.I)
+					env.wantInt(i, ix.I)
+					ref := vc.elemRef(st.Elem(), fmt.Sprintf("(s.arr %s)", b.S), fmt.Sprintf("(+ (s.off %s) %s)", b.S, i.S))
+					return Term{S: ref, Sort: "Int", T: types.NewPointer(st.Elem())}
+				}
+			}
+			efail("& is supported only on elements of slices of objects: %s", x.X)
 		}
 		efail("unsupported unary %s", x.Op)
 	case *SBinary:
@@ -593,6 +618,19 @@ func (env *Env) elabSel(x *SSel, keepRef bool) Term {
 	var a Term
 	if inner, ok := x.X.(*SSel); ok {
 		a = env.elabSel(inner, true)
+	} else if ix, ok := x.X.(*SIndex); ok {
+		// field of an object-typed slice element: stay in reference form, so that the term is a
+		// plain heap lookup (usable as a quantifier pattern) instead of accessor-of-constructor
+		b := env.elab(ix.X)
+		st, isSl := typeUnder[*types.Slice](b.T)
+		if b.Sort == "Slice" && isSl && structOf(st.Elem()) != nil {
+			i := env.elab(ix.I)
+			env.wantInt(i, ix.I)
+			ref := env.vc.elemRef(st.Elem(), fmt.Sprintf("(s.arr %s)", b.S), fmt.Sprintf("(+ (s.off %s) %s)", b.S, i.S))
+			a = Term{S: ref, Sort: "Int", T: types.NewPointer(st.Elem())}
+		} else {
+			a = env.elab(x.X)
+		}
 	} else {
 		a = env.elab(x.X)
 	}
@@ -738,6 +776,26 @@ func (env *Env) elabBinary(x *SBinary) Term {
 		return boolTerm(fmt.Sprintf("(not (= %s %s))", a.S, b.S))
 	case "<", "<=", ">", ">=":
 		a, b := env.elab(x.X), env.elab(x.Y)
+		if isStringTerm(a) || isStringTerm(b) {
+			// strings are opaque values: the order is an uninterpreted strict total order
+			if !isStringTerm(a) || !isStringTerm(b) {
+				efail("comparison of a string with a non-string")
+			}
+			vc := env.vc
+			vc.decl("strlt", "(declare-fun strlt (Int Int) Bool)")
+			vc.declAxiom("strlt$ax", "(assert (forall ((a Int) (b Int)) (! (and (not (and (strlt a b) (strlt b a))) (or (strlt a b) (strlt b a) (= a b))) :pattern ((strlt a b)))))")
+			vc.declAxiom("strlt$tr", "(assert (forall ((a Int) (b Int) (c Int)) (! (=> (and (strlt a b) (strlt b c)) (strlt a c)) :pattern ((strlt a b) (strlt b c)))))")
+			switch x.Op {
+			case "<":
+				return boolTerm(fmt.Sprintf("(strlt %s %s)", a.S, b.S))
+			case ">":
+				return boolTerm(fmt.Sprintf("(strlt %s %s)", b.S, a.S))
+			case "<=":
+				return boolTerm(fmt.Sprintf("(not (strlt %s %s))", b.S, a.S))
+			default:
+				return boolTerm(fmt.Sprintf("(not (strlt %s %s))", a.S, b.S))
+			}
+		}
 		env.wantInt(a, x.X)
 		env.wantInt(b, x.Y)
 		return boolTerm(fmt.Sprintf("(%s %s %s)", x.Op, a.S, b.S))
@@ -1216,4 +1274,12 @@ func derefNamed(t types.Type) (*types.Named, bool) {
 	}
 	n, ok := t.(*types.Named)
 	return n, ok
+}
+
+func isStringTerm(t Term) bool {
+	if t.T == nil {
+		return false
+	}
+	b, ok := t.T.Underlying().(*types.Basic)
+	return ok && b.Info()&types.IsString != 0
 }
